@@ -300,8 +300,12 @@ def run(case):
         um = fem.NeoHooke(mu=1.0)
         bc = fem.SolidBodyNearlyIncompressible(um, fc, bulk=case["bulk"])
         bm = fem.SolidBody(fem.NearlyIncompressible(fem.NeoHooke(mu=1.0), bulk=case["bulk"]), fm)
-        iters = {"c": [], "m": []}
-        for tag, field, body in (("c", fc, bc), ("m", fm, bm)):
+        # (t: the other explicit formulation of the same functional -- ThreeFieldVariation of the Neo-Hookean energy incl. its
+        #  volumetric part, evaluated at the modified deformation gradient)
+        ft = fem.FieldsMixed(region, n=3, **kw)
+        bt = fem.SolidBody(fem.ThreeFieldVariation(fem.NeoHooke(mu=1.0, bulk=case["bulk"])), ft)
+        iters = {"c": [], "m": [], "t": []}
+        for tag, field, body in (("c", fc, bc), ("m", fm, bm), ("t", ft, bt)):
             bounds, lc = fem.dof.uniaxial(field, clamped=True, move=0.0, axis=0, sym=(False, True, False)[: mesh.dim] + (False,) * (3 - mesh.dim))
             moves = np.linspace(0, -0.25, case["nsub"] + 1)[1:]
             x = field
@@ -309,8 +313,10 @@ def run(case):
                 if case.get("restart") and imv > 0:
                     if tag == "c":
                         body = fem.SolidBodyNearlyIncompressible(um, field, bulk=case["bulk"])
-                    else:
+                    elif tag == "m":
                         body = fem.SolidBody(fem.NearlyIncompressible(fem.NeoHooke(mu=1.0), bulk=case["bulk"]), field)
+                    else:
+                        body = fem.SolidBody(fem.ThreeFieldVariation(fem.NeoHooke(mu=1.0, bulk=case["bulk"])), field)
                     x = field
                 bounds["move"].update(mv)
                 ext0 = fem.dof.apply(field, bounds, lc["dof0"])
@@ -339,6 +345,11 @@ def run(case):
                     cur.append(it)
             return out
 
+        st_ = split(iters["t"])
+        for s_, (la, lt) in enumerate(zip(split(iters["c"]), st_)):
+            c.cmp(f"substep{s_}/converged/u/three-field-variation", "converged displacements: condensed body vs ThreeFieldVariation", la[-1][0], lt[-1][0], 1e-7)
+            c.cmp(f"substep{s_}/converged/J/three-field-variation", "converged volume ratios: condensed body vs ThreeFieldVariation", la[-1][2], lt[-1][2], 1e-7)
+            c.cmp(f"substep{s_}/converged/p/three-field-variation", "converged pressures: condensed body vs ThreeFieldVariation", 1 + la[-1][1] / max(case["bulk"], 1), 1 + lt[-1][1] / max(case["bulk"], 1), 1e-7)
         sc_, sm_ = split(iters["c"]), split(iters["m"])
         cnt_c, cnt_m = [len(x) for x in sc_], [len(x) for x in sm_]
         c.outcomes.add(f"iterations={cnt_c}/{cnt_m}")
